@@ -1,14 +1,19 @@
 (* RefSigProofs.v -- proofs about the reference signature code (Model/RefSig.v, Model/Secp256k1.v).
    1. the modular inverse used everywhere (extended Euclid with fuel) is correct for every modulus > 1;
-   2. over an ABSTRACT group with a Z-action factoring through Z/q, q prime (the module laws are hypotheses, collected
-      in [module_laws]): what the full-point ECDSA verifier decides, sign-then-verify, (R,s) |-> (-R,-s), public key
-      recovery, Schnorr sign-then-verify.  The statements are about the generic definitions [ecdsa_verify_gen] etc.
-      of Model/RefSig.v, whose instance at secp256k1 is the executable reference;
+   2. over an ABSTRACT group with a Z-action factoring through Z/q, q prime (the module laws are hypotheses,
+      collected in [module_laws]): what the full-point ECDSA verifier decides, sign-then-verify,
+      (R,s) |-> (-R,-s), public key recovery, Schnorr sign-then-verify.  The statements are about the generic
+      definitions [ecdsa_verify_gen] etc. of Model/RefSig.v, whose instance at secp256k1 is the executable
+      reference;
    3. facts about the concrete code that need no number theory (verifier unfolding, strict decoding);
-   4. an instance of the hypotheses (Z/101), for non-vacuity.
-   The group laws of secp256k1 itself are NOT proved (DESIGN section 7). *)
-From Coq Require Import List NArith ZArith Bool Lia Znumtheory.
-From MPS Require Import Model.Bytes Model.Secp256k1 Model.RefSig Proofs.BytesProofs.
+   4. an instance of the hypotheses (Z/101), for non-vacuity;
+   5. BIP-340 reference: facts that hold by construction;
+   6. Fermat's little theorem, correctness of square-and-multiply, and from them
+      decompress (compress P) = P for every finite point of the curve, with [prime secp_p] as premise.
+   The group laws of secp256k1 itself are NOT proved (DESIGN section 7); [prime secp_p], [prime secp_q] are
+   premises wherever they are needed, never axioms. *)
+From Coq Require Import List NArith ZArith Bool Lia Znumtheory Zpow_facts Permutation.
+From MPS Require Import Model.Bytes Model.Sha Model.Secp256k1 Model.RefSig Proofs.BytesProofs.
 Import ListNotations.
 Open Scope Z_scope.
 
@@ -334,6 +339,8 @@ Proof. unfold ecdsa_verify. intro H. now apply andb_true_iff in H as [_ H]. Qed.
 Lemma secp_p_pos : 0 < secp_p. Proof. reflexivity. Qed.
 Lemma secp_p_ne_0 : secp_p <> 0. Proof. discriminate. Qed.
 Lemma secp_p_odd : Z.even secp_p = false. Proof. reflexivity. Qed.
+Lemma secp_e4_spec : 4 * ((secp_p + 1) / 4) = secp_p + 1. Proof. reflexivity. Qed.
+Lemma secp_p_lt_2_256 : secp_p < 2 ^ 256. Proof. reflexivity. Qed.
 (* from here on the 256-bit constant is never unfolded by tactics *)
 Local Opaque secp_p.
 
@@ -491,3 +498,263 @@ Proof.
   - rewrite Z.mul_mod_idemp_r, <- Z.add_mod by lia. f_equal. ring.
   - rewrite Z.mul_mod_idemp_l by lia. reflexivity.
 Qed.
+
+(* ---- BIP-340 reference: facts that hold by construction ---- *)
+Local Opaque sha256 base_mul pt_mul pt_add secp_q.
+
+Lemma some_inj {A} (a b : A) : Some a = Some b -> a = b.
+Proof. congruence. Qed.
+
+(* whenever the reference signer outputs a signature, the reference verifier accepts it under the reference
+   public key of the same secret key (the signer ends with the self-check the BIP recommends) *)
+Theorem bip340_sign_verifies sk msg aux sig :
+  bip340_sign sk msg aux = Some sig ->
+  exists pk, bip340_pubkey sk = Some pk /\ bip340_verify pk msg sig = true.
+Proof.
+  unfold bip340_sign, bip340_pubkey.
+  destruct (len_is 32 sk) eqn:Hsk; cbn [andb]; [|discriminate].
+  destruct (len_is 32 aux); [|discriminate].
+  destruct ((Z_of_bytes sk =? 0) || (secp_q <=? Z_of_bytes sk)); [discriminate|].
+  destruct (base_mul (Z_of_bytes sk)) as [[px py]|]; [|discriminate].
+  match goal with |- context [if ?c =? 0 then None else _] => destruct (c =? 0); [discriminate|] end.
+  match goal with |- context [match base_mul ?k with _ => _ end] =>
+    destruct (base_mul k) as [[rx ry]|]; [|discriminate] end.
+  match goal with |- context [if bip340_verify ?pk ?m ?s then _ else _] =>
+    destruct (bip340_verify pk m s) eqn:V; [|discriminate] end.
+  intro H. apply some_inj in H. subst sig. eexists. split; [reflexivity | exact V].
+Qed.
+
+(* everything the BIP tells the verifier to reject is rejected *)
+Theorem bip340_verify_accepts_only pk msg sig :
+  bip340_verify pk msg sig = true ->
+  length pk = 32%nat /\ length sig = 64%nat /\
+  let r := Z_of_bytes (firstn 32 sig) in
+  let s := Z_of_bytes (skipn 32 sig) in
+  let e := Z_of_bytes (tagged_hash tag_challenge (firstn 32 sig ++ pk ++ msg)) mod secp_q in
+  r < secp_p /\ s < secp_q /\
+  exists P y, lift_x (Z_of_bytes pk) = Some P /\
+              pt_sub (base_mul s) (pt_mul e P) = Some (r, y) /\ Z.even y = true.
+Proof.
+  unfold bip340_verify.
+  destruct (len_is 32 pk) eqn:Hpk; cbn [andb]; [|discriminate].
+  destruct (len_is 64 sig) eqn:Hsig; [|discriminate].
+  destruct (lift_x (Z_of_bytes pk)) as [P|] eqn:HP; [|discriminate].
+  destruct (secp_p <=? Z_of_bytes (firstn 32 sig)) eqn:Hr; cbn [orb]; [discriminate|].
+  destruct (secp_q <=? Z_of_bytes (skipn 32 sig)) eqn:Hs; [discriminate|].
+  destruct (pt_sub _ _) as [[x y]|] eqn:HR; [|discriminate].
+  intro H. apply andb_true_iff in H as [Hev Hx]. apply Z.eqb_eq in Hx. subst x.
+  apply Nat.eqb_eq in Hpk, Hsig. apply Z.leb_gt in Hr, Hs.
+  repeat split; try assumption. exists P, y. auto.
+Qed.
+
+
+(* ---- Fermat's little theorem (not in the standard library), by the permutation-of-residues argument ---- *)
+
+Definition prodl (l : list Z) : Z := fold_right Z.mul 1 l.
+
+Lemma prodl_perm l l' : Permutation l l' -> prodl l = prodl l'.
+Proof.
+  unfold prodl. induction 1 as [|x l l' _ IH|x y l|l l' l'' _ IH1 _ IH2]; cbn [fold_right].
+  - reflexivity.
+  - now rewrite IH.
+  - ring.
+  - congruence.
+Qed.
+
+Lemma NoDup_map_inj_in {A B} (f : A -> B) (l : list A) :
+  (forall x y, In x l -> In y l -> f x = f y -> x = y) -> NoDup l -> NoDup (map f l).
+Proof.
+  induction l as [|a l IH]; intros Hinj Hnd; cbn [map]; [constructor|].
+  inversion Hnd as [|? ? Hnotin Hnd']; subst. constructor.
+  - intro Hin. apply in_map_iff in Hin as [x [Hfx Hx]].
+    assert (x = a) by (apply Hinj; [now right | now left | assumption]). subst. contradiction.
+  - apply IH; [|assumption]. intros x y Hx Hy. apply Hinj; now right.
+Qed.
+
+Section Fermat.
+  Variable p : Z.
+  Hypothesis p_prime : prime p.
+  Let p_gt_1 : 1 < p := q_gt_1 p p_prime.
+
+  Definition residues : list Z := map Z.of_nat (seq 1 (Z.to_nat (p - 1))).
+
+  Lemma in_residues x : In x residues <-> 1 <= x < p.
+  Proof.
+    unfold residues. rewrite in_map_iff. split.
+    - intros [n [<- Hn]]. apply in_seq in Hn. lia.
+    - intro Hx. exists (Z.to_nat x). split; [lia|]. apply in_seq. lia.
+  Qed.
+
+  Lemma residues_NoDup : NoDup residues.
+  Proof.
+    unfold residues. apply NoDup_map_inj_in; [|apply seq_NoDup].
+    intros x y _ _. apply Nat2Z.inj.
+  Qed.
+
+  Lemma residues_length : length residues = Z.to_nat (p - 1).
+  Proof. unfold residues. now rewrite map_length, seq_length. Qed.
+
+  Lemma not_divide_small x : 1 <= x < p -> ~ (p | x).
+  Proof. intros Hx Hd. apply Z.divide_pos_le in Hd; lia. Qed.
+
+  Lemma prodl_map_mul a l :
+    prodl (map (fun x => (a * x) mod p) l) mod p = (a ^ Z.of_nat (length l) * prodl l) mod p.
+  Proof.
+    induction l as [|x l IH]; cbn [map prodl fold_right length].
+    - reflexivity.
+    - fold (prodl (map (fun x => (a * x) mod p) l)). fold (prodl l).
+      rewrite Nat2Z.inj_succ, Z.pow_succ_r by lia.
+      rewrite Z.mul_mod_idemp_l by lia.
+      rewrite <- Z.mul_mod_idemp_r, IH, Z.mul_mod_idemp_r by lia. f_equal. ring.
+  Qed.
+
+  Lemma prodl_rel_prime l : (forall x, In x l -> 1 <= x < p) -> rel_prime p (prodl l).
+  Proof.
+    induction l as [|x l IH]; intro H; cbn [prodl fold_right].
+    - apply rel_prime_sym, rel_prime_1.
+    - apply rel_prime_mult.
+      + apply rel_prime_sym, rel_prime_le_prime; [assumption | apply H; now left].
+      + apply IH. intros y Hy. apply H. now right.
+  Qed.
+
+  Theorem fermat_little a : ~ (p | a) -> a ^ (p - 1) mod p = 1.
+  Proof.
+    intro Ha.
+    set (f := fun x => (a * x) mod p).
+    assert (Hrange : forall x, 1 <= x < p -> 1 <= f x < p).
+    { intros x Hx. unfold f. pose proof (Z.mod_pos_bound (a * x) p ltac:(lia)) as Hb.
+      assert ((a * x) mod p <> 0); [|lia].
+      intro H0. apply Z.mod_divide in H0; [|lia].
+      apply prime_mult in H0; [|assumption]. destruct H0 as [H0|H0]; [contradiction|].
+      now apply (not_divide_small x). }
+    assert (Hinj : forall x y, In x residues -> In y residues -> f x = f y -> x = y).
+    { intros x y Hx Hy Hf. apply in_residues in Hx, Hy. unfold f in Hf.
+      apply mod_eq_divide in Hf; [|lia].
+      replace (a * x - a * y) with (a * (x - y)) in Hf by ring.
+      apply prime_mult in Hf; [|assumption]. destruct Hf as [Hf|Hf]; [contradiction|].
+      destruct (Z.eq_dec x y) as [|Hne]; [assumption|exfalso].
+      destruct Hf as [c Hc]. assert (c = 0 \/ c <= -1 \/ 1 <= c) as [?|[?|?]] by lia; nia. }
+    assert (Hperm : Permutation (map f residues) residues).
+    { apply NoDup_Permutation_bis.
+      - apply NoDup_map_inj_in; [assumption | apply residues_NoDup].
+      - rewrite map_length. lia.
+      - intros y Hy. apply in_map_iff in Hy as [x [<- Hx]].
+        apply in_residues. apply Hrange. now apply in_residues. }
+    apply prodl_perm in Hperm.
+    pose proof (prodl_map_mul a residues) as Hm. fold f in Hm. rewrite Hperm, residues_length in Hm.
+    rewrite Z2Nat.id in Hm by lia.
+    symmetry in Hm. apply mod_eq_divide in Hm; [|lia].
+    replace (a ^ (p - 1) * prodl residues - prodl residues) with (prodl residues * (a ^ (p - 1) - 1)) in Hm by ring.
+    apply Gauss in Hm.
+    - rewrite <- (Z.mod_1_l p) at 2 by lia. apply mod_eq_divide; [lia | assumption].
+    - apply prodl_rel_prime. intros x Hx. now apply in_residues.
+  Qed.
+End Fermat.
+
+(* ---- square-and-multiply computes the modular power ---- *)
+Lemma powmod_pos_spec m b e : 0 < m -> powmod_pos m b e = b ^ Zpos e mod m.
+Proof.
+  intro Hm. induction e as [e IH|e IH|]; cbn [powmod_pos].
+  - rewrite IH, Pos2Z.inj_xI.
+    replace (2 * Z.pos e + 1) with (Z.pos e + Z.pos e + 1) by lia.
+    rewrite !Z.pow_add_r, Z.pow_1_r by lia.
+    rewrite <- Z.mul_mod by lia. rewrite Z.mul_mod_idemp_l by lia. reflexivity.
+  - rewrite IH, Pos2Z.inj_xO.
+    replace (2 * Z.pos e) with (Z.pos e + Z.pos e) by lia.
+    rewrite Z.pow_add_r by lia. now rewrite <- Z.mul_mod by lia.
+  - now rewrite Z.pow_1_r.
+Qed.
+
+Lemma powmod_spec b e m : 0 < m -> 0 <= e -> powmod b e m = b ^ e mod m.
+Proof.
+  intros Hm He. unfold powmod. destruct e as [|e|e]; [reflexivity | | lia].
+  rewrite powmod_pos_spec by assumption.
+  symmetry. apply Zpow_facts.Zpower_mod. assumption.
+Qed.
+
+(* ---- decompress (compress P) = P, given that the field characteristic is prime ---- *)
+Section RoundTrip.
+  Hypothesis p_prime : prime secp_p.
+
+  Let e4 := (secp_p + 1) / 4.
+
+  (* the candidate square root is a square root whenever there is one (Euler's criterion for p = 3 mod 4) *)
+  Lemma sqrt_candidate y :
+    0 <= y < secp_p ->
+    let r := powmod ((y * y) mod secp_p) e4 secp_p in
+    0 <= r < secp_p /\ (r = y \/ r = secp_p - y).
+  Proof.
+    intros Hy r. pose proof secp_p_pos as Hp. pose proof secp_e4_spec as He. fold e4 in He.
+    assert (Hr : 0 <= r < secp_p) by (apply powmod_range; assumption).
+    split; [assumption|].
+    assert (Er : r = ((y * y) mod secp_p) ^ e4 mod secp_p) by (apply powmod_spec; lia).
+    destruct (Z.eq_dec y 0) as [->|Hy0].
+    - left. rewrite Er, Z.mul_0_l. rewrite Z.mod_0_l by lia.
+      try rewrite Z.pow_0_l by lia. try rewrite Z.mod_0_l by lia. reflexivity.
+    - assert (Hnd : ~ (secp_p | y)) by (intro Hd; apply Z.divide_pos_le in Hd; lia).
+      pose proof (fermat_little secp_p p_prime y Hnd) as HF.
+      assert (Hsq : (r * r) mod secp_p = (y * y) mod secp_p).
+      { rewrite Er at 1 2. rewrite <- Z.mul_mod, <- Z.pow_add_r by lia.
+        rewrite <- Zpower_mod by lia.
+        rewrite Z.pow_mul_l, <- Z.pow_add_r by lia.
+        replace (e4 + e4 + (e4 + e4)) with ((secp_p - 1) + 2) by lia.
+        rewrite Z.pow_add_r by lia.
+        rewrite <- Z.mul_mod_idemp_l, HF by lia. f_equal. ring. }
+      apply mod_eq_divide in Hsq; [|lia].
+      replace (r * r - y * y) with ((r - y) * (r + y)) in Hsq by ring.
+      apply prime_mult in Hsq; [|assumption].
+      destruct Hsq as [[c Hc]|[c Hc]].
+      + left. assert (c = 0) by nia. lia.
+      + right. assert (c = 1) by nia. lia.
+  Qed.
+
+  Lemma lift_x_complete x y :
+    on_curve (Some (x, y)) = true ->
+    exists y', lift_x x = Some (Some (x, y')) /\ Z.even y' = true /\ (y' = y \/ y' = secp_p - y).
+  Proof.
+    cbn [on_curve]. intro H. apply andb_true_iff in H as [H Heq]. apply andb_true_iff in H as [Hx Hy].
+    apply Z.eqb_eq in Heq. apply in_field_bound in Hy. pose proof secp_p_pos as Hp.
+    unfold lift_x. rewrite Hx. unfold fsqrt. rewrite <- Heq.
+    change (fmul y y) with ((y * y) mod secp_p).
+    destruct (sqrt_candidate y Hy) as [Hr Hcase]. fold e4.
+    generalize dependent (powmod ((y * y) mod secp_p) e4 secp_p). intros r Hr Hcase.
+    assert (Hsq : fmul r r = (y * y) mod secp_p mod secp_p).
+    { rewrite Z.mod_mod by lia. unfold fmul. destruct Hcase as [->| ->]; [reflexivity|].
+      replace ((secp_p - y) * (secp_p - y)) with (y * y + (secp_p - 2 * y) * secp_p) by ring.
+      apply Z.mod_add. lia. }
+    rewrite Hsq, Z.eqb_refl.
+    destruct (Z.even r) eqn:Ev.
+    - exists r. auto.
+    - exists (secp_p - r). split; [reflexivity|]. split.
+      + rewrite Z.even_sub, secp_p_odd, Ev. reflexivity.
+      + destruct Hcase as [->| ->]; [now right | left; lia].
+  Qed.
+
+  Lemma bytes32_roundtrip x : 0 <= x < secp_p -> Z_of_bytes (bytes32_of_Z x) = x.
+  Proof.
+    intro Hx. unfold Z_of_bytes, bytes32_of_Z. rewrite be_val_be_bytes.
+    pose proof secp_p_lt_2_256 as Hlt.
+    rewrite N.mod_small; [apply Z2N.id; lia|].
+    apply N2Z.inj_lt. rewrite Z2N.id by lia.
+    change (Z.of_N (256 ^ N.of_nat 32)) with (2 ^ 256). lia.
+  Qed.
+
+  Theorem decompress_compress x y :
+    on_curve (Some (x, y)) = true ->
+    exists b, compress (Some (x, y)) = Some b /\ decompress b = Some (Some (x, y)).
+  Proof.
+    intro Hoc. pose proof Hoc as Hoc'. cbn [on_curve] in Hoc'.
+    apply andb_true_iff in Hoc' as [H _]. apply andb_true_iff in H as [Hx Hy].
+    apply in_field_bound in Hx, Hy.
+    destruct (lift_x_complete x y Hoc) as (y' & Hlift & Hev & Hcase).
+    eexists. split; [reflexivity|].
+    cbn [compress decompress]. unfold bytes32_of_Z at 1. rewrite be_bytes_length. cbn [Nat.eqb negb].
+    fold (bytes32_of_Z x). rewrite bytes32_roundtrip by assumption. rewrite Hlift.
+    destruct (Z.even y) eqn:Ey; cbn [N.eqb Pos.eqb orb negb].
+    - destruct Hcase as [->| ->]; [reflexivity|].
+      rewrite Z.even_sub, secp_p_odd, Ey in Hev. discriminate.
+    - destruct Hcase as [->| ->]; [congruence|].
+      destruct (Z.eqb_spec (secp_p - y) 0) as [E|E]; [lia|].
+      do 3 f_equal. lia.
+  Qed.
+End RoundTrip.
